@@ -41,7 +41,21 @@ pub fn flush_frees() {
 
 /// Keys that the model cannot predict and that the lock-step comparison ignores
 /// (they are judged by the monitor on the recorded trace instead).
-const UNPREDICTED: [&str; 7] = ["blk", "size", "align", "walk", "by", "thr", "live"];
+const UNPREDICTED: [&str; 4] = ["blk", "thr", "sz", "run"];
+/// size of a node box in the model
+const MODEL_SZ: u64 = 144;
+
+thread_local! {
+    /// real size of a node box in this build (set at the start of a run)
+    pub static REAL_SZ: Cell<u64> = const { Cell::new(144) };
+}
+
+fn scaled(exp: &Value, got: &Value) -> bool {
+    match (exp.as_u64(), got.as_u64()) {
+        (Some(a), Some(b)) => a % MODEL_SZ == 0 && a / MODEL_SZ * REAL_SZ.with(|c| c.get()) == b || (a % MODEL_SZ != 0 && a == b),
+        _ => exp == got,
+    }
+}
 
 fn same(exp: &Value, got: &Value) -> bool {
     match (exp, got) {
@@ -52,7 +66,17 @@ fn same(exp: &Value, got: &Value) -> bool {
                 }
                 match b.get(k) {
                     Some(w) => {
-                        if !same(v, w) {
+                        let ok = match k.as_str() {
+                            // byte counts and box sizes are predicted in units of the model's node size
+                            "by" | "size" => scaled(v, w),
+                            // address observations: everything but the block number
+                            "ad" => match (v.as_array(), w.as_array()) {
+                                (Some(x), Some(y)) => x.len() == y.len() && x.iter().zip(y).all(|(p, q)| p[0] == q[0] && p[3] == q[3] && p[4] == q[4] && p[5] == q[5]),
+                                _ => false,
+                            },
+                            _ => same(v, w),
+                        };
+                        if !ok {
                             return false;
                         }
                     }
